@@ -199,3 +199,60 @@ def r3(rr, repo):
         if U(c.func) == 'self.logfiles.append':
             fn = enclosing_function(c)
             rr.ob('logfiles.append is protected by the lock', q.within_with(c, 'self.lock') or protected_fn(fn), mod, c, key='lock|append')
+
+
+@rule('C13.R4', 'reader advance discipline in read(): the file index moves forward by exactly one at a time, an exhausted or vanished file is closed before the next one is opened, and the file opened is the one the index names')
+def r4(rr, repo):
+    mod, fn, paths = fn_paths(repo, 'read')
+    rr.paths += len(paths)
+    n = m = 0
+    for p in paths:
+        for e in p.events:
+            if e.kind == 'store' and e.term == 'self.read_idx':
+                n += 1
+                rr.ob('the reader index advances by exactly one', e.args[0] == 'self.read_idx + 1', mod, e.node, witness=e.args[0], key=f'advance|{e.args[0][:40]}')
+            if e.kind == 'call' and e.term == 'open':
+                m += 1
+                rr.ob('the file opened for reading is logfiles[read_idx], read-only', e.args[0] == 'self.logfiles[self.read_idx].path' and e.args[1].strip('\'"') == 'rb', mod, e.node, witness=str(e.args), key='open-current')
+        adv = [e for e in p.events if e.kind == 'store' and e.term == 'self.read_idx']
+        empty = [v for kk, v in p.pc if kk.startswith('truthy(') and ('.readline()' in kk or '.read()' in kk)]
+        if adv and empty and empty[-1] is False:
+            closes = [e for e in p.events if e.kind == 'call' and e.term.endswith('.close')]
+            nulls = [e for e in p.events if e.kind == 'store' and e.term == 'self.read_file' and e.args[0] == 'None']
+            rr.ob('moving past an exhausted file closes it and forgets the handle', bool(closes) and bool(nulls), mod, adv[0].node, witness=p.pc_text()[-160:], key='close-exhausted')
+    rr.floor('index advances in read()', n, 2, mod, fn)
+    rr.floor('opens in read()', m, 1, mod, fn)
+
+
+@rule('C13.R5', 'refresh re-anchors the reader by identity: the open file is kept exactly when the same path is still listed; otherwise the reader moves to the first file newer than where it was (or to the end) and the stale handle is closed')
+def r5(rr, repo):
+    mod, fn, paths = fn_paths(repo, 'refresh_logfiles', unroll_for=1)
+    rr.paths += len(paths)
+    rows = set()
+    for p in paths:
+        same = [v for kk, v in p.pc if kk.startswith('eq(') and kk.endswith('.path)') and '__elem__' in kk]
+        newer = None
+        for kk, v in p.pc:
+            if kk.startswith('ord(') and '.timestamp' in kk and '__elem__' in kk:
+                inner = kk[4:-1]
+                elem_first = inner.startswith('__elem__(')
+                newer = (v if elem_first else {'<': '>', '>': '<', '=': '='}[v]) == '>'
+        st = [e for e in p.events if e.kind == 'store' and e.term == 'self.read_idx']
+        closes = [e for e in p.events if e.kind == 'call' and e.term.endswith('.close')]
+        had_file = p.facts.get('isnone(self.read_file)') is False
+        it = [e for e in p.events if e.kind == 'for']
+        zero = bool(it) and it[0].args[0] == 'zero'
+        if not st:
+            rr.violated('refresh ends without re-anchoring the reader index', mod, fn, witness=p.pc_text()[-200:], key='no-store')
+            continue
+        val = st[-1].args[0]
+        if same and same[0] is True:
+            rows.add('same')
+            rr.ob('same path still listed: the reader stays on it (index of that entry) and the open handle is kept', val.endswith('[0]') and '__elem__' in val and not closes, mod, st[-1].node, witness=f'{val[:60]} closes={len(closes)}', key='same-path')
+        elif not zero and newer is True:
+            rows.add('newer')
+            rr.ob('file gone, a newer one exists: move to the first newer file and drop the stale handle', val.endswith('[0]') and '__elem__' in val and (bool(closes) == had_file), mod, st[-1].node, witness=f'{val[:60]} closes={len(closes)} had_file={had_file}', key='first-newer')
+        elif zero or newer is False:
+            rows.add('end')
+            rr.ob('nothing newer: the reader is placed at the end and the stale handle dropped', val == 'len(self.logfiles)' and (bool(closes) == had_file), mod, st[-1].node, witness=f'{val[:60]} closes={len(closes)} had_file={had_file}', key='to-end')
+    rr.floor('rows of the refresh decision table (same path / first newer / end)', len(rows), 3, mod, fn)
